@@ -64,6 +64,10 @@ type c19Expiry struct {
 	Env uint8 `json:"env,omitempty"`
 	// Rewrite52: RewriteAt machine cycles after the trigger NR52 is written again with this value (bit 7 set: sound is
 	// on already, the write changes nothing); the counter must expire when it would have
+	// Idle > 0: before the run, with the channel idle, length counting is enabled through NRx4 (bit 6 set, no trigger)
+	// and Idle length clocks pass: the counter counts whether or not the channel plays, so the trigger that follows
+	// (NRx1 is not rewritten) finds what is left of it — or reloads the maximum when nothing is left
+	Idle      int   `json:"idle,omitempty"`
 	Rewrite52 uint8 `json:"rewrite52,omitempty"`
 	RewriteAt int   `json:"rewrite_at,omitempty"`
 }
@@ -101,6 +105,15 @@ func c19ExpiryCheck(l *explore.Local, _ struct{}, c c19Expiry) *explore.Fail {
 		func() *explore.Fail { return w(0xff13, 0xff) },
 		func() *explore.Fail { return w(0xff10, 0x00) },
 		loadAt(""),
+		func() *explore.Fail {
+			if c.Idle == 0 {
+				return nil
+			}
+			if f := w(r.ctl, 0x40|r.freqHi); f != nil {
+				return f
+			}
+			return p.tick(c.Idle*4096, ctx)
+		},
 		func() *explore.Fail {
 			n := 1
 			if c.First {
@@ -415,7 +428,7 @@ func init() {
 					}
 				}
 			}, func() struct{} { return struct{}{} }, c19SweepCheck)
-		explore.Product(c.R, "expiry-runs", explore.PartOpt{Bound: "run to expiry, every cycle compared", Domain: "channel x t x half x enable mode x skew {0,1,700, and 1 or 2 cycles before the following frame-sequencer step}; length data written after / before / during the power-off that precedes the run; NR52 rewritten (80 / FF) while sound is on at 4 moments of the run; envelopes that fade to volume 0 long before the expiry"},
+		explore.Product(c.R, "expiry-runs", explore.PartOpt{Bound: "run to expiry, every cycle compared", Domain: "channel x t x half x enable mode x skew {0,1,700, and 1 or 2 cycles before the following frame-sequencer step}; length data written after / before / during the power-off that precedes the run; NR52 rewritten (80 / FF) while sound is on at 4 moments of the run; envelopes that fade to volume 0 long before the expiry; length counting enabled on the idle channel 1, 2 or 5 length clocks before the trigger"},
 			func(yield func(c19Expiry) bool) {
 				for ch := 0; ch < 4; ch++ {
 					var ts []uint8
@@ -434,6 +447,15 @@ func init() {
 							for _, at := range []int{5, 2053, 4101, 6149} {
 								for _, v := range []uint8{0x80, 0xff} {
 									if !yield(c19Expiry{Ch: ch, T: t, First: first, Rewrite52: v, RewriteAt: at}) {
+										return
+									}
+								}
+							}
+						}
+						for _, t := range []uint8{uint8(max - 1), uint8(max - 3), uint8(max - 20)} {
+							for _, idle := range []int{1, 2, 5} {
+								for _, after := range []bool{false, true} {
+									if !yield(c19Expiry{Ch: ch, T: t, First: first, After: after, Idle: idle}) {
 										return
 									}
 								}
